@@ -170,13 +170,10 @@ theorem unpack_pack (s : List Nat) (h : ∀ c ∈ s, c < 16) :
 
 /-- the facts `valid` packs -/
 structure ValidFacts (nref : Nat) (r : Rec) : Prop where
-  ref_lo : -1 ≤ r.refID
   ref_hi : r.refID < (nref : Int)
   refI : inI32 r.refID = true
   posI : inI32 r.pos = true
   flag : r.flag < 65536
-  name_pos : 1 ≤ r.name.length
-  name_le : r.name.length ≤ 254
   ncig : r.cigar.length < 65536
   cig : ∀ p ∈ r.cigar, p.1 < 16 ∧ p.2 < 268435456
   lseq : r.seq.length < 2147483648
@@ -186,10 +183,14 @@ structure ValidFacts (nref : Nat) (r : Rec) : Prop where
 
 theorem valid_facts (nref : Nat) (r : Rec) (hv : valid nref r = true) : ValidFacts nref r := by
   simp only [valid, Bool.and_eq_true, decide_eq_true_eq, List.all_eq_true] at hv
-  obtain ⟨⟨⟨⟨⟨⟨⟨⟨⟨⟨⟨⟨⟨⟨⟨⟨⟨⟨⟨⟨hr1, hr2⟩, hrI⟩, hpI⟩, hmq⟩, hbin⟩, hfl⟩, hnr⟩, hnp⟩, htl⟩, hn1⟩, hn2⟩, hnm⟩, hcl⟩, hca⟩, hsl⟩, hsa⟩, hql⟩, hqa⟩, hta⟩, hbs⟩ := hv
-  exact { ref_lo := hr1, ref_hi := hr2, refI := hrI, posI := hpI, flag := hfl, name_pos := hn1, name_le := hn2,
+  obtain ⟨⟨⟨⟨⟨⟨⟨⟨⟨hr2, hrI⟩, hpI⟩, hfl⟩, hcl⟩, hca⟩, hsl⟩, hsa⟩, hql⟩, hbs⟩ := hv
+  exact { ref_hi := hr2, refI := hrI, posI := hpI, flag := hfl,
           ncig := hcl, cig := fun p hp => by simpa using hca p hp, lseq := hsl,
           seq := fun c hc => by simpa using hsa c hc, qual := hql, block := hbs }
+
+theorem specValid_valid (nref : Nat) (r : Rec) (h : specValid nref r = true) : valid nref r = true := by
+  simp only [specValid, Bool.and_eq_true] at h
+  exact h.1.1.1.1.1.1.1.1.1.1.1.1
 
 /-- decoding the bytes of one encoded record (followed by anything) gives back its fields -/
 theorem decodeRel_encode (names : List Bytes) (nref : Nat) (r : Rec) (hv : valid nref r = true) (post : Bytes) :
@@ -536,6 +537,122 @@ structure Inv (st : RState) (rem : List Rec) : Prop where
   short : ∀ r rs, rem = r :: rs → st.prepend.length < (encodeRec r).length
   done : rem = [] → st.prepend = []
 
+/-- a read that returns nothing: all records have been delivered and the reader stops -/
+theorem readChunk_end (names : List Bytes) (k : Nat) (st : RState) (rem : List Rec) (inv : Inv st rem)
+    (hk : ∀ r ∈ rem, (encodeRec r).length ≤ k) (hgot : (st.rest.take k).length = 0) :
+    rem = [] ∧ readChunk false false names k st = none := by
+  have hrem : rem = [] := by
+    cases rem with
+    | nil => rfl
+    | cons r rs =>
+      exfalso
+      have h1 := inv.short r rs rfl
+      have h2 := hk r (by simp)
+      have h3 := encodeRec_pos r
+      have hb := congrArg List.length inv.bytes
+      simp only [List.length_append, encodeAll_cons] at hb
+      simp only [List.length_take] at hgot
+      have : st.rest.length = 0 := by omega
+      omega
+  refine ⟨hrem, ?_⟩
+  have hpre : st.prepend = [] := inv.done hrem
+  simp [readChunk, hgot, hpre]
+
+/-- one successful `read_chunk`: a non-empty block `d` of the remaining records is delivered, decoded, together with
+exactly its own bytes; afterwards either the reader is finished with nothing left, or the invariant holds for the rest -/
+theorem readChunk_step (names : List Bytes) (k : Nat) (st : RState) (rem : List Rec) (inv : Inv st rem)
+    (hv : ∀ r ∈ rem, valid names.length r = true) (hk : ∀ r ∈ rem, (encodeRec r).length ≤ k)
+    (hgot : ¬ (st.rest.take k).length = 0) :
+    ∃ d t st', rem = d ++ t ∧ d ≠ [] ∧
+      readChunk false false names k st = some ((d.map (view names), encodeAll d), st') ∧
+      ((st'.finished = true ∧ t = [] ∧ st'.rest = [] ∧ st'.prepend = []) ∨
+       (st'.finished = false ∧ Inv st' t ∧ st'.rest.length < st.rest.length)) := by
+  simp only [readChunk]
+  rw [if_neg hgot]
+  by_cases hfin : (st.rest.take k).length < k
+  · -- last read: the chunk is everything that remains (plus the appended newline)
+    have hall : st.rest.take k = st.rest := by
+      apply List.take_of_length_le
+      simp only [List.length_take] at hfin; omega
+    have hfin' : st.rest.length < k := by rw [hall] at hfin; exact hfin
+    simp only [hall, hfin', decide_true, if_true]
+    have hne : rem ≠ [] := by
+      intro h
+      have hb := inv.bytes
+      rw [h] at hb
+      simp only [encodeAll, List.flatMap_nil, List.append_eq_nil_iff] at hb
+      rw [hall, hb.2] at hgot; simp at hgot
+    have hchunk : ∃ tail, Stops tail ∧ st.prepend ++ addNewline st.rest = encodeAll rem ++ tail := by
+      unfold addNewline
+      split
+      · exact ⟨[], stops_nil, by simp [inv.bytes]⟩
+      · exact ⟨[10], stops_newline, by rw [← List.append_assoc, inv.bytes]⟩
+    obtain ⟨tail, ht, hc⟩ := hchunk
+    have hrest : List.drop k st.rest = [] := by
+      apply List.drop_eq_nil_of_le
+      simp only [List.length_take] at hfin; omega
+    refine ⟨rem, [], { rest := [], prepend := [], finished := true }, by simp, hne, ?_, Or.inl ⟨rfl, rfl, rfl, rfl⟩⟩
+    rw [hc, decodeChunk_encode names rem hv tail ht, hrest]
+    simp
+  · -- a full read of k bytes: complete records are delivered, the rest is carried over
+    have hklen : (st.rest.take k).length = k := by
+      simp only [List.length_take] at hfin hgot ⊢; omega
+    have hkpos : 0 < k := by omega
+    have hkle : k ≤ st.rest.length := by
+      simp only [List.length_take] at hklen; omega
+    simp only [hfin, decide_false, Bool.false_eq_true, if_false]
+    have hpre : st.prepend ++ st.rest.take k = (encodeAll rem).take (st.prepend.length + k) := by
+      rw [← inv.bytes, List.take_append, List.take_of_length_le (Nat.le_add_right _ _), Nat.add_sub_cancel_left]
+    have hn : st.prepend.length + k ≤ (encodeAll rem).length := by
+      rw [← inv.bytes]; simp; omega
+    obtain ⟨d, t, hdt, hle, hcase⟩ := split_at rem _ hn
+    have hvd : ∀ r ∈ d, valid names.length r = true := fun r hr => hv r (by simp [hdt, hr])
+    have hvt : ∀ r ∈ t, valid names.length r = true := fun r hr => hv r (by simp [hdt, hr])
+    have hkt : ∀ r ∈ t, (encodeRec r).length ≤ k := fun r hr => hk r (by simp [hdt, hr])
+    obtain ⟨tail, htail⟩ : ∃ tail, tail = (encodeAll t).take (st.prepend.length + k - (encodeAll d).length) := ⟨_, rfl⟩
+    have hchunk : st.prepend ++ st.rest.take k = encodeAll d ++ tail := by
+      rw [hpre, hdt, encodeAll_append, List.take_append, htail]
+      congr 1
+      apply List.take_of_length_le; omega
+    have hrestdrop : tail ++ st.rest.drop k = encodeAll t := by
+      have h1 : st.rest.drop k = (encodeAll rem).drop (st.prepend.length + k) := by
+        rw [← inv.bytes, List.drop_append]
+        simp [List.drop_eq_nil_of_le]
+      rw [h1, hdt, encodeAll_append, List.drop_append, List.drop_eq_nil_of_le hle, List.nil_append, htail,
+        List.take_append_drop]
+    have hstops : Stops tail := by
+      rcases hcase with ⟨ht, _⟩ | ⟨q, qs, ht, hlt⟩
+      · rw [htail, ht]; simp [encodeAll, stops_nil]
+      · rw [htail, ht, encodeAll_cons]
+        exact stops_prefix names.length q (hvt q (by simp [ht])) _ _ (by omega)
+    have hdne : d ≠ [] := by
+      intro hd
+      rw [hd] at hdt hle hcase
+      simp only [List.nil_append] at hdt
+      rcases hcase with ⟨ht, hnn⟩ | ⟨q, qs, ht, hlt⟩
+      · simp [encodeAll] at hnn; omega
+      · have := hkt q (by simp [ht])
+        simp [encodeAll] at hlt; omega
+    have inv' : Inv { rest := st.rest.drop k, prepend := tail, finished := false } t := by
+      refine ⟨hrestdrop, ?_, ?_⟩
+      · intro q qs ht
+        rcases hcase with ⟨ht', _⟩ | ⟨q', qs', ht', hlt⟩
+        · rw [ht'] at ht; cases ht
+        · rw [ht'] at ht; cases ht
+          rw [htail]; simp only [List.length_take]; omega
+      · intro ht
+        rw [htail, ht]; simp [encodeAll]
+    refine ⟨d, t, { rest := st.rest.drop k, prepend := tail, finished := false }, hdt, hdne, ?_,
+      Or.inr ⟨rfl, inv', by simp only [List.length_drop]; omega⟩⟩
+    rw [hchunk, decodeChunk_encode names d hvd tail hstops]
+    simp
+
+theorem readChunks_finished (names : List Bytes) (k fuel : Nat) (st : RState) (h1 : st.finished = true) (h2 : st.rest = []) :
+    readChunks false false names k fuel st = [] := by
+  cases fuel with
+  | zero => rfl
+  | succ f => simp [readChunks, readChunk, h1, h2]
+
 theorem readChunks_spec (names : List Bytes) (k : Nat) :
     ∀ (fuel : Nat) (st : RState) (rem : List Rec), Inv st rem → (∀ r ∈ rem, valid names.length r = true) →
       (∀ r ∈ rem, (encodeRec r).length ≤ k) → st.rest.length < fuel →
@@ -546,122 +663,56 @@ theorem readChunks_spec (names : List Bytes) (k : Nat) :
   | zero => intro st rem _ _ _ hf; omega
   | succ fuel ih =>
     intro st rem inv hv hk hf
-    simp only [readChunks, readChunk]
     by_cases hgot : (st.rest.take k).length = 0
-    · -- nothing left to read: every record has been delivered
-      rw [if_pos hgot]
-      have hrem : rem = [] := by
-        cases rem with
-        | nil => rfl
-        | cons r rs =>
-          exfalso
-          have h1 := inv.short r rs rfl
-          have h2 := hk r (by simp)
-          have h3 := encodeRec_pos r
-          have hb := congrArg List.length inv.bytes
-          simp only [List.length_append, encodeAll_cons] at hb
-          simp only [List.length_take] at hgot
-          have : st.rest.length = 0 := by omega
-          omega
-      simp [hrem, encodeAll]
-    · rw [if_neg hgot]
-      simp only
-      by_cases hfin : (st.rest.take k).length < k
-      · -- last read: the chunk is everything that remains (plus the appended newline)
-        have hall : st.rest.take k = st.rest := by
-          apply List.take_of_length_le
-          simp only [List.length_take] at hfin; omega
-        have hfin' : st.rest.length < k := by rw [hall] at hfin; exact hfin
-        simp only [hall, hfin', decide_true, if_true]
-        have hne : rem ≠ [] := by
-          intro h
-          have hb := inv.bytes
-          rw [h] at hb
-          simp only [encodeAll, List.flatMap_nil, List.append_eq_nil_iff] at hb
-          rw [hall, hb.2] at hgot; simp at hgot
-        have hchunk : ∃ tail, Stops tail ∧ st.prepend ++ addNewline st.rest = encodeAll rem ++ tail := by
-          unfold addNewline
-          split
-          · exact ⟨[], stops_nil, by simp [inv.bytes]⟩
-          · exact ⟨[10], stops_newline, by rw [← List.append_assoc, inv.bytes]⟩
-        obtain ⟨tail, ht, hc⟩ := hchunk
-        rw [hc, decodeChunk_encode names rem hv tail ht]
-        have : (rem.map (view names)).isEmpty = false := by
-          cases rem with
-          | nil => exact absurd rfl hne
-          | cons r rs => rfl
-        simp only [this, Bool.false_eq_true, if_false, List.map_cons, List.flatten_cons]
-        have hrest : List.drop k st.rest = [] := by
-          apply List.drop_eq_nil_of_le
-          simp only [List.length_take] at hfin; omega
-        rw [hrest]
-        have : readChunks false false names k fuel { rest := [], prepend := [] } = [] := by
-          cases fuel with
-          | zero => rfl
-          | succ f => simp [readChunks, readChunk]
-        rw [this]; simp
-      · -- a full read of k bytes: complete records are delivered, the rest is carried over
-        have hklen : (st.rest.take k).length = k := by
-          simp only [List.length_take] at hfin hgot ⊢; omega
-        have hkpos : 0 < k := by omega
-        have hkle : k ≤ st.rest.length := by
-          simp only [List.length_take] at hklen; omega
-        simp only [hfin, decide_false, Bool.false_eq_true, if_false]
-        -- the chunk is the first `prepend.length + k` bytes of what remains
-        have hpre : st.prepend ++ st.rest.take k = (encodeAll rem).take (st.prepend.length + k) := by
-          rw [← inv.bytes, List.take_append, List.take_of_length_le (Nat.le_add_right _ _), Nat.add_sub_cancel_left]
-        have hn : st.prepend.length + k ≤ (encodeAll rem).length := by
-          rw [← inv.bytes]; simp; omega
-        obtain ⟨d, t, hdt, hle, hcase⟩ := split_at rem _ hn
-        have hvd : ∀ r ∈ d, valid names.length r = true := fun r hr => hv r (by simp [hdt, hr])
-        have hvt : ∀ r ∈ t, valid names.length r = true := fun r hr => hv r (by simp [hdt, hr])
+    · obtain ⟨hrem, hnone⟩ := readChunk_end names k st rem inv hk hgot
+      simp [readChunks, hnone, hrem, encodeAll]
+    · obtain ⟨d, t, st', hdt, hdne, hstep, hnext⟩ := readChunk_step names k st rem inv hv hk hgot
+      have hemp : (d.map (view names)).isEmpty = false := by
+        cases d with
+        | nil => exact absurd rfl hdne
+        | cons r rs => rfl
+      simp only [readChunks, hstep, hemp, Bool.false_eq_true, if_false, List.map_cons, List.flatten_cons]
+      rcases hnext with ⟨hf', ht, hr, _⟩ | ⟨_, inv', hlt⟩
+      · rw [readChunks_finished names k fuel st' hf' hr, hdt, ht]
+        simp
+      · have hvt : ∀ r ∈ t, valid names.length r = true := fun r hr => hv r (by simp [hdt, hr])
         have hkt : ∀ r ∈ t, (encodeRec r).length ≤ k := fun r hr => hk r (by simp [hdt, hr])
-        -- tail = the carried-over bytes
-        obtain ⟨tail, htail⟩ : ∃ tail, tail = (encodeAll t).take (st.prepend.length + k - (encodeAll d).length) := ⟨_, rfl⟩
-        have hchunk : st.prepend ++ st.rest.take k = encodeAll d ++ tail := by
-          rw [hpre, hdt, encodeAll_append, List.take_append, htail]
-          congr 1
-          apply List.take_of_length_le; omega
-        have hrestdrop : tail ++ st.rest.drop k = encodeAll t := by
-          have h1 : st.rest.drop k = (encodeAll rem).drop (st.prepend.length + k) := by
-            rw [← inv.bytes, List.drop_append]
-            simp [List.drop_eq_nil_of_le]
-          rw [h1, hdt, encodeAll_append, List.drop_append, List.drop_eq_nil_of_le hle, List.nil_append, htail,
-            List.take_append_drop]
-        have hstops : Stops tail := by
-          rcases hcase with ⟨ht, _⟩ | ⟨q, qs, ht, hlt⟩
-          · rw [htail, ht]; simp [encodeAll, stops_nil]
-          · rw [htail, ht, encodeAll_cons]
-            exact stops_prefix names.length q (hvt q (by simp [ht])) _ _ (by omega)
-        have hdne : d ≠ [] := by
-          intro hd
-          rw [hd] at hdt hle hcase
-          simp only [List.nil_append] at hdt
-          rcases hcase with ⟨ht, hnn⟩ | ⟨q, qs, ht, hlt⟩
-          · simp [encodeAll] at hnn; omega
-          · have := hkt q (by simp [ht])
-            simp [encodeAll] at hlt; omega
-        rw [hchunk, decodeChunk_encode names d hvd tail hstops]
-        have : (d.map (view names)).isEmpty = false := by
-          cases d with
-          | nil => exact absurd rfl hdne
-          | cons r rs => rfl
-        simp only [this, Bool.false_eq_true, if_false, List.map_cons, List.flatten_cons]
-        have hdrop : (encodeAll d ++ tail).drop (encodeAll d).length = tail := by simp
-        have htake : (encodeAll d ++ tail).take (encodeAll d).length = encodeAll d := by simp
-        rw [hdrop, htake]
-        have inv' : Inv { rest := st.rest.drop k, prepend := tail } t := by
-          refine ⟨hrestdrop, ?_, ?_⟩
-          · intro q qs ht
-            rcases hcase with ⟨ht', _⟩ | ⟨q', qs', ht', hlt⟩
-            · rw [ht'] at ht; cases ht
-            · rw [ht'] at ht; cases ht
-              rw [htail]; simp only [List.length_take]; omega
-          · intro ht
-            rw [htail, ht]; simp [encodeAll]
-        obtain ⟨ih1, ih2⟩ := ih _ t inv' hvt hkt (by simp only [List.length_drop]; omega)
+        obtain ⟨ih1, ih2⟩ := ih st' t inv' hvt hkt (by omega)
         rw [ih1, ih2, hdt, List.map_append, encodeAll_append]
         exact ⟨rfl, rfl⟩
+
+/-- `NumpyFileReader.read_chunks` (the loop behind `count_entries`) delivers the same chunks -/
+theorem readChunksRaw_spec (names : List Bytes) (k : Nat) :
+    ∀ (fuel : Nat) (st : RState) (rem : List Rec), Inv st rem → (∀ r ∈ rem, valid names.length r = true) →
+      (∀ r ∈ rem, (encodeRec r).length ≤ k) → st.rest.length + 1 < fuel → st.finished = false →
+      ((readChunksRaw false false names k fuel st).map (·.1.length)).sum = rem.length := by
+  intro fuel
+  induction fuel with
+  | zero => intro st rem _ _ _ hf; omega
+  | succ fuel ih =>
+    intro st rem inv hv hk hf hnf
+    by_cases hgot : (st.rest.take k).length = 0
+    · obtain ⟨hrem, hnone⟩ := readChunk_end names k st rem inv hk hgot
+      simp [readChunksRaw, hnone, hrem, hnf]
+    · obtain ⟨d, t, st', hdt, hdne, hstep, hnext⟩ := readChunk_step names k st rem inv hv hk hgot
+      simp only [readChunksRaw, hnf, Bool.false_eq_true, if_false, hstep, List.map_cons, List.sum_cons, List.length_map]
+      rcases hnext with ⟨hf', ht, _, _⟩ | ⟨hf', inv', hlt⟩
+      · have : readChunksRaw false false names k fuel st' = [] := by
+          cases fuel with
+          | zero => rfl
+          | succ f => simp [readChunksRaw, hf']
+        rw [this, hdt, ht]; simp
+      · have hvt : ∀ r ∈ t, valid names.length r = true := fun r hr => hv r (by simp [hdt, hr])
+        have hkt : ∀ r ∈ t, (encodeRec r).length ≤ k := fun r hr => hk r (by simp [hdt, hr])
+        rw [ih st' t inv' hvt hkt (by omega) hf', hdt, List.length_append]
+
+/-- **`count_entries`** on a BAM file: the number of records, for every chunk size at least the largest record -/
+theorem count_entries (names : List Bytes) (recs : List Rec) (hv : ∀ r ∈ recs, valid names.length r = true)
+    (k : Nat) (hk : ∀ r ∈ recs, (encodeRec r).length ≤ k) :
+    countEntries false false names k (encodeAll recs) = recs.length := by
+  unfold countEntries
+  apply readChunksRaw_spec names k _ _ recs _ hv hk (by simp) rfl
+  exact ⟨by simp, by intro r rs _; simp; have := encodeRec_pos r; omega, fun _ => rfl⟩
 
 theorem readAllChunks_spec (names : List Bytes) (recs : List Rec) (hv : ∀ r ∈ recs, valid names.length r = true)
     (k : Nat) (hk : ∀ r ∈ recs, (encodeRec r).length ≤ k) :
@@ -995,6 +1046,486 @@ theorem gen_rules_repaired : Gen.C16.oldChrom = false ∧ Gen.C16.oldCig = false
 template record changes exactly the field the model reads there, by the same amount -/
 theorem gen_probe_ok : Gen.C16.probe = Gen.C16.probeOffsets.map (probeObs Gen.C16.probePad) := by decide +kernel
 
+/-! ### spec-level characterisations: the model's primitives in plain List / Nat vocabulary -/
+
+/-- byte `i` of the little-endian encoding is digit `i` in base 256 -/
+theorem toLE_getElem? (w n i : Nat) (hi : i < w) : (toLE w n)[i]? = some (n / 256 ^ i % 256) := by
+  induction w generalizing n i with
+  | zero => omega
+  | succ w ih =>
+    cases i with
+    | zero => simp [toLE]
+    | succ i =>
+      simp only [toLE, List.getElem?_cons_succ]
+      rw [ih (n / 256) i (by omega), Nat.div_div_eq_div_mul, Nat.pow_succ, Nat.mul_comm]
+
+theorem toLE_lt (w n : Nat) : ∀ b ∈ toLE w n, b < 256 := by
+  induction w generalizing n with
+  | zero => intro b hb; simp [toLE] at hb
+  | succ w ih =>
+    intro b hb
+    simp only [toLE, List.mem_cons] at hb
+    rcases hb with h | h
+    · omega
+    · exact ih _ b h
+
+theorem fromLE_lt (bs : Bytes) (h : ∀ b ∈ bs, b < 256) : fromLE bs < 256 ^ bs.length := by
+  induction bs with
+  | nil => simp [fromLE]
+  | cons b bs ih =>
+    have hb := h b (by simp)
+    have := ih (fun c hc => h c (by simp [hc]))
+    simp only [fromLE, List.length_cons, Nat.pow_succ]
+    omega
+
+/-- the other direction of the round trip: on byte strings `toLE ∘ fromLE` is the identity, so `toLE w` and `fromLE`
+are mutually inverse bijections between numbers below `256^w` and byte strings of length `w` -/
+theorem toLE_fromLE (bs : Bytes) (h : ∀ b ∈ bs, b < 256) : toLE bs.length (fromLE bs) = bs := by
+  induction bs with
+  | nil => rfl
+  | cons b bs ih =>
+    have hb := h b (by simp)
+    simp only [fromLE, List.length_cons, toLE]
+    have h1 : (b + 256 * fromLE bs) % 256 = b := by omega
+    have h2 : (b + 256 * fromLE bs) / 256 = fromLE bs := by omega
+    rw [h1, h2, ih (fun c hc => h c (by simp [hc]))]
+
+theorem fromLE_append (a b : Bytes) : fromLE (a ++ b) = fromLE a + 256 ^ a.length * fromLE b := by
+  induction a with
+  | nil => simp [fromLE]
+  | cons x a ih =>
+    simp only [List.cons_append, fromLE, ih, List.length_cons, Nat.pow_succ]
+    rw [Nat.mul_add, Nat.add_assoc]
+    congr 2
+    rw [← Nat.mul_assoc, Nat.mul_comm 256]
+
+/-- `slice d a n` is `d[a], …, d[a+n-1]` -/
+theorem slice_getElem? (d : Bytes) (a n i : Nat) : (slice d a n)[i]? = if i < n then d[a + i]? else none := by
+  unfold slice
+  rw [List.getElem?_take]
+  split
+  · rw [List.getElem?_drop]
+  · rfl
+
+theorem slice_length (d : Bytes) (a n : Nat) : (slice d a n).length = min n (d.length - a) := by
+  simp [slice]
+
+/-- nibble unpacking in div/mod vocabulary: high nibble first -/
+theorem unpackNibbles_divmod (bs : Bytes) : unpackNibbles bs = bs.flatMap (fun b => [b / 16 % 16, b % 16]) := by
+  unfold unpackNibbles
+  congr 1
+  funext b
+  simp [and15, shr4]
+
+/-- byte `i` of the packed sequence holds codes `2i` (high) and `2i+1` (low, 0 when the length is odd) -/
+theorem packNibbles_getElem? (s : List Nat) : ∀ i, 2 * i < s.length →
+    (packNibbles s)[i]? = some ((s[2 * i]?).getD 0 * 16 + (s[2 * i + 1]?).getD 0) := by
+  fun_induction packNibbles s with
+  | case1 => intro i h; simp at h
+  | case2 a => intro i h; have : i = 0 := by simp at h; omega
+               subst this; simp
+  | case3 a b r ih =>
+    intro i h
+    cases i with
+    | zero => simp
+    | succ i =>
+      have := ih i (by simp at h; omega)
+      simp only [List.getElem?_cons_succ, this]
+      have e1 : 2 * (i + 1) = (2 * i) + 1 + 1 := by omega
+      rw [e1]
+      simp
+
+/-- CIGAR words in div/mod vocabulary: op = word mod 16, length = word div 16 -/
+theorem splitCigar_divmod (ws : List Nat) : splitCigar ws = (ws.map (· % 16), ws.map (· / 16)) := by
+  unfold splitCigar
+  congr 1
+  · apply List.map_congr_left; intro w _; exact and15 w
+  · apply List.map_congr_left; intro w _; exact shr4 w
+
+/-- the reference length is the sum of the lengths of the reference-consuming operations -/
+theorem specRefLen_eq_sum (c : List (Nat × Nat)) :
+    specRefLen c = ((c.filter (fun p => specConsumes p.1)).map (·.2)).sum := by
+  induction c with
+  | nil => rfl
+  | cons p c ih =>
+    obtain ⟨op, l⟩ := p
+    simp only [specRefLen, ih, List.filter_cons]
+    cases specConsumes op <;> simp
+
+/-- the strand bit is bit 4 of the flag -/
+theorem strand_testBit (flag : Nat) : ((flag &&& 16) != 0) = flag.testBit 4 := by
+  rw [and16, Nat.testBit_eq_decide_div_mod_eq]
+  have : flag / 16 % 2 = 0 ∨ flag / 16 % 2 = 1 := by omega
+  have e : (2 : Nat) ^ 4 = 16 := by decide
+  rw [e]
+  rcases this with h | h <;> simp [h]
+
+theorem encodeAll_length (recs : List Rec) :
+    (encodeAll recs).length = (recs.map (fun r => (encodeRec r).length)).sum := by
+  induction recs with
+  | nil => rfl
+  | cons r rs ih => simp [encodeAll_cons, ih]
+
+/-- record boundaries are the prefix sums of the record sizes -/
+theorem bounds_prefix_sums (recs : List Rec) (s i : Nat) (hi : i ≤ recs.length) :
+    (bounds s recs)[i]? = some (s + ((recs.take i).map (fun r => (encodeRec r).length)).sum) := by
+  rw [bounds_get recs s i hi, encodeAll_length]
+
+theorem raggedRows_flatten (rows : List (List Nat)) : raggedRows rows.flatten (rows.map List.length) = rows := by
+  induction rows with
+  | nil => rfl
+  | cons r rs ih => simp only [List.flatten_cons, List.map_cons, raggedRows_cons, ih]
+
+/-- `_read_zero_term` = split at the first NUL -/
+theorem readZeroTerm_spec (d : Bytes) (h : 0 ∈ d) :
+    readZeroTerm d = some (d.takeWhile (· != 0), (d.dropWhile (· != 0)).drop 1) := by
+  induction d with
+  | nil => simp at h
+  | cons b bs ih =>
+    by_cases hb : b = 0
+    · subst hb; simp [readZeroTerm]
+    · have hm : 0 ∈ bs := by
+        rcases List.mem_cons.mp h with h' | h'
+        · exact absurd h'.symm hb
+        · exact h'
+      simp [readZeroTerm, hb, ih hm]
+
+/-- completeness: the name reader fails exactly when there is no NUL -/
+theorem readZeroTerm_none_iff (d : Bytes) : readZeroTerm d = none ↔ 0 ∉ d := by
+  induction d with
+  | nil => simp [readZeroTerm]
+  | cons b bs ih =>
+    by_cases hb : b = 0
+    · subst hb; simp [readZeroTerm]
+    · simp only [readZeroTerm, hb, if_false, Option.map_eq_none_iff, ih, List.mem_cons, not_or]
+      constructor
+      · intro h; exact ⟨fun e => hb e.symm, h⟩
+      · intro h; exact h.2
+
+/-! ### the boundary chain without any assumption on what follows the records; completeness of `Stops` -/
+
+/-- `_find_starts` on records followed by ANYTHING: it walks through exactly the record starts and then continues
+from the end of the last record (no hypothesis on `tail`) -/
+theorem findStarts_chain_general (nref : Nat) (tail : Bytes) (recs : List Rec) :
+    ∀ (pre : Bytes) (fuel : Nat) (d : Bytes), d = pre ++ (encodeAll recs ++ tail) →
+      (∀ r ∈ recs, valid nref r = true) → recs.length ≤ fuel →
+      findStartsAux d fuel pre.length
+        = startsOf pre.length recs ++ findStartsAux d (fuel - recs.length) (pre.length + (encodeAll recs).length) := by
+  induction recs with
+  | nil => intro pre fuel d _ _ _; simp [startsOf, encodeAll]
+  | cons r rs ih =>
+    intro pre fuel d hd hv hf
+    obtain ⟨f, rfl⟩ : ∃ f, fuel = f + 1 := ⟨fuel - 1, by simp at hf; omega⟩
+    have F := valid_facts nref r (hv r (by simp))
+    have hd1 : d = pre ++ (fixedPart r ++ (varPart r ++ (encodeAll rs ++ tail))) := by
+      rw [hd]; simp [encodeAll_cons, encodeRec]
+    have hs : slice d pre.length 4 = toLE 4 (32 + (varPart r).length) := by
+      rw [hd1]
+      have := slice_append_right pre (fixedPart r ++ (varPart r ++ (encodeAll rs ++ tail))) 0 4
+      simp only [Nat.add_zero] at this
+      rw [this, fixed_block]
+    have h32 : (256 : Nat) ^ 4 = 4294967296 := by decide
+    have hb : fromLE (toLE 4 (32 + (varPart r).length)) = 32 + (varPart r).length :=
+      fromLE_toLE 4 _ (by have := F.block; omega)
+    have hnext : pre.length + (32 + (varPart r).length) + 4 = (pre ++ encodeRec r).length := by
+      simp [encodeRec_length]; omega
+    have hd2 : d = (pre ++ encodeRec r) ++ (encodeAll rs ++ tail) := by
+      rw [hd]; simp [encodeAll_cons]
+    have hle : pre.length ≤ d.length := by rw [hd]; simp
+    simp only [findStartsAux, startsOf]
+    rw [if_pos hle, hs, hb, hnext, ih (pre ++ encodeRec r) f d hd2 (fun q hq => hv q (by simp [hq])) (by simp at hf ⊢; omega)]
+    simp only [List.length_append, List.cons_append, List.length_cons, encodeAll_cons]
+    have e1 : pre.length + (encodeRec r).length + (encodeAll rs).length
+        = pre.length + ((encodeRec r).length + (encodeAll rs).length) := by omega
+    have e2 : f + 1 - (rs.length + 1) = f - rs.length := by omega
+    rw [e1, e2]
+
+theorem findStartsAux_ge (d : Bytes) : ∀ (fuel s x : Nat), x ∈ findStartsAux d fuel s → s ≤ x := by
+  intro fuel
+  induction fuel with
+  | zero => intro s x h; simp [findStartsAux] at h
+  | succ f ih =>
+    intro s x h
+    simp only [findStartsAux] at h
+    split at h
+    · rcases List.mem_cons.mp h with h' | h'
+      · omega
+      · have := ih _ x h'; omega
+    · simp at h
+
+/-- **completeness of the chunk rule**: the decoder consumes exactly the bytes of the records — no more — if and only
+if what follows them stops the chain (is shorter than the block it announces). Otherwise it reads past the records. -/
+theorem used_bytes_iff (names : List Bytes) (recs : List Rec) (hv : ∀ r ∈ recs, valid names.length r = true) (tail : Bytes) :
+    (decodeChunk false false names (encodeAll recs ++ tail)).2 = (encodeAll recs).length ↔ Stops tail := by
+  constructor
+  · intro h
+    have hlen : recs.length ≤ (encodeAll recs).length := by
+      clear hv h
+      induction recs with
+      | nil => simp
+      | cons r rs ih => simp [encodeAll_cons, encodeRec_length]; omega
+    have hg := findStarts_chain_general names.length tail recs [] ((encodeAll recs ++ tail).length + 2)
+      (encodeAll recs ++ tail) (by simp) hv (by simp; omega)
+    simp only [List.length_nil, Nat.zero_add] at hg
+    obtain ⟨g, hgdef⟩ : ∃ g, (encodeAll recs ++ tail).length + 2 - recs.length = g + 2 :=
+      ⟨(encodeAll recs ++ tail).length - recs.length, by simp; omega⟩
+    rw [hgdef] at hg
+    have hsl : slice (encodeAll recs ++ tail) (encodeAll recs).length 4 = slice tail 0 4 := by
+      have := slice_append_right (encodeAll recs) tail 0 4
+      simpa using this
+    unfold decodeChunk findStarts at h
+    simp only [hg] at h
+    unfold Stops
+    by_cases hst : tail.length < fromLE (slice tail 0 4) + 4
+    · exact hst
+    · exfalso
+      have hR : findStartsAux (encodeAll recs ++ tail) (g + 2) (encodeAll recs).length
+          = (encodeAll recs).length :: ((encodeAll recs).length + fromLE (slice tail 0 4) + 4) ::
+              findStartsAux (encodeAll recs ++ tail) g ((encodeAll recs).length + fromLE (slice tail 0 4) + 4 +
+                fromLE (slice (encodeAll recs ++ tail) ((encodeAll recs).length + fromLE (slice tail 0 4) + 4) 4) + 4) := by
+        simp only [findStartsAux, hsl]
+        rw [if_pos (by simp), if_pos (by simp; omega)]
+      rw [hR] at h
+      simp only [List.getLast?_append, List.getLast?_cons_cons] at h
+      obtain ⟨y, hy⟩ : ∃ y, (((encodeAll recs).length + fromLE (slice tail 0 4) + 4) ::
+              findStartsAux (encodeAll recs ++ tail) g ((encodeAll recs).length + fromLE (slice tail 0 4) + 4 +
+                fromLE (slice (encodeAll recs ++ tail) ((encodeAll recs).length + fromLE (slice tail 0 4) + 4) 4) + 4)).getLast? = some y := by
+        cases hq : (((encodeAll recs).length + fromLE (slice tail 0 4) + 4) ::
+              findStartsAux (encodeAll recs ++ tail) g ((encodeAll recs).length + fromLE (slice tail 0 4) + 4 +
+                fromLE (slice (encodeAll recs ++ tail) ((encodeAll recs).length + fromLE (slice tail 0 4) + 4) 4) + 4)).getLast? with
+        | none => simp at hq
+        | some y => exact ⟨y, rfl⟩
+      have hmem := List.mem_of_getLast? hy
+      have hge : (encodeAll recs).length + fromLE (slice tail 0 4) + 4 ≤ y := by
+        rcases List.mem_cons.mp hmem with h' | h'
+        · omega
+        · have := findStartsAux_ge _ _ _ _ h'; omega
+      rw [hy] at h
+      simp at h
+      omega
+  · intro ht
+    rw [decodeChunk_encode names recs hv tail ht]
+
+/-! ### the encoder is faithful: real bytes, and a complete spec-level decoder inverts it (unique parsing) -/
+
+theorem packNibbles_lt (s : List Nat) (h : ∀ c ∈ s, c < 16) : ∀ b ∈ packNibbles s, b < 256 := by
+  fun_induction packNibbles s with
+  | case1 => intro b hb; simp at hb
+  | case2 a => intro b hb; have := h a (by simp); simp at hb; omega
+  | case3 a b r ih =>
+    intro x hx
+    have ha := h a (by simp)
+    have hb := h b (by simp)
+    simp only [List.mem_cons] at hx
+    rcases hx with hx | hx
+    · omega
+    · exact ih (fun c hc => h c (by simp [hc])) x hx
+
+theorem cigarWords_lt (c : List (Nat × Nat)) : ∀ b ∈ cigarWords c, b < 256 := by
+  intro b hb
+  simp only [cigarWords, List.mem_flatMap] at hb
+  obtain ⟨p, _, hp⟩ := hb
+  exact toLE_lt 4 _ b hp
+
+/-- for a record the specification allows, the encoder emits real bytes -/
+theorem encodeRec_bytes (nref : Nat) (r : Rec) (h : specValid nref r = true) : ∀ b ∈ encodeRec r, b < 256 := by
+  have hv := valid_facts nref r (specValid_valid nref r h)
+  simp only [specValid, Bool.and_eq_true, decide_eq_true_eq, List.all_eq_true, bne_iff_ne, ne_eq] at h
+  obtain ⟨⟨⟨⟨⟨⟨⟨⟨⟨⟨⟨⟨_, _⟩, hmq⟩, _⟩, _⟩, _⟩, _⟩, _⟩, hn2⟩, hnm⟩, _⟩, hq⟩, ht⟩ := h
+  intro b hb
+  simp only [encodeRec, fixedPart, varPart, List.mem_append, List.mem_cons, List.mem_singleton, List.not_mem_nil, or_false] at hb
+  rcases hb with (hb | hb | hb | (hb | hb) | hb | hb | hb | hb | hb | hb | hb) | hb | hb | hb | hb | hb | hb
+  any_goals exact toLE_lt _ _ b hb
+  · omega
+  · omega
+  · exact (hnm b hb).2
+  · omega
+  · exact cigarWords_lt _ b hb
+  · exact packNibbles_lt _ hv.seq b hb
+  · exact hq b hb
+  · exact ht b hb
+
+theorem fixed_bin (r : Rec) (rest : Bytes) : slice (fixedPart r ++ rest) 14 2 = toLE 2 r.bin := by
+  simp only [fixedPart, toLE, List.cons_append, List.nil_append]
+  rfl
+
+theorem fixed_nref (r : Rec) (rest : Bytes) : slice (fixedPart r ++ rest) 24 4 = toLE 4 (toU32 r.nextRef) := by
+  simp only [fixedPart, toLE, List.cons_append, List.nil_append]
+  rfl
+
+theorem fixed_npos (r : Rec) (rest : Bytes) : slice (fixedPart r ++ rest) 28 4 = toLE 4 (toU32 r.nextPos) := by
+  simp only [fixedPart, toLE, List.cons_append, List.nil_append]
+  rfl
+
+theorem fixed_tlen (r : Rec) (rest : Bytes) : slice (fixedPart r ++ rest) 32 4 = toLE 4 (toU32 r.tlen) := by
+  simp only [fixedPart, toLE, List.cons_append, List.nil_append]
+  rfl
+
+theorem var_name (r : Rec) (post : Bytes) : slice (fixedPart r ++ (varPart r ++ post)) 36 r.name.length = r.name := by
+  have : fixedPart r ++ (varPart r ++ post) = fixedPart r ++ (r.name ++ ([0] ++ (cigarWords r.cigar ++ (packNibbles r.seq ++ (r.qual ++ r.tags))) ++ post)) := by
+    simp [varPart]
+  rw [this]; exact slice_seg _ _ _ _ _ (by simp [fixedPart_length]) rfl
+
+theorem var_cigar (r : Rec) (post : Bytes) :
+    slice (fixedPart r ++ (varPart r ++ post)) (36 + (r.name.length + 1)) (4 * r.cigar.length) = cigarWords r.cigar := by
+  have : fixedPart r ++ (varPart r ++ post) = (fixedPart r ++ (r.name ++ [0])) ++ (cigarWords r.cigar ++ ((packNibbles r.seq ++ (r.qual ++ r.tags)) ++ post)) := by
+    simp [varPart]
+  rw [this]; exact slice_seg _ _ _ _ _ (by simp [fixedPart_length]) (by rw [cigarWords_length])
+
+theorem var_seq (r : Rec) (post : Bytes) :
+    slice (fixedPart r ++ (varPart r ++ post)) (36 + (r.name.length + 1) + 4 * r.cigar.length) ((r.seq.length + 1) / 2) = packNibbles r.seq := by
+  have : fixedPart r ++ (varPart r ++ post) = (fixedPart r ++ (r.name ++ ([0] ++ cigarWords r.cigar))) ++ (packNibbles r.seq ++ ((r.qual ++ r.tags) ++ post)) := by
+    simp [varPart]
+  rw [this]; exact slice_seg _ _ _ _ _ (by simp [fixedPart_length, cigarWords_length]; omega) (by rw [packNibbles_length])
+
+theorem var_qual (r : Rec) (post : Bytes) (hq : r.qual.length = r.seq.length) :
+    slice (fixedPart r ++ (varPart r ++ post)) (36 + (r.name.length + 1) + 4 * r.cigar.length + (r.seq.length + 1) / 2) r.seq.length = r.qual := by
+  have : fixedPart r ++ (varPart r ++ post) = (fixedPart r ++ (r.name ++ ([0] ++ (cigarWords r.cigar ++ packNibbles r.seq)))) ++ (r.qual ++ (r.tags ++ post)) := by
+    simp [varPart]
+  rw [this]; exact slice_seg _ _ _ _ _ (by simp [fixedPart_length, cigarWords_length, packNibbles_length]; omega) hq.symm
+
+theorem var_tags (r : Rec) (hq : r.qual.length = r.seq.length) :
+    slice (fixedPart r ++ (varPart r ++ [])) (36 + (r.name.length + 1) + 4 * r.cigar.length + (r.seq.length + 1) / 2 + r.seq.length) r.tags.length = r.tags := by
+  have : fixedPart r ++ (varPart r ++ []) = (fixedPart r ++ (r.name ++ ([0] ++ (cigarWords r.cigar ++ (packNibbles r.seq ++ r.qual))))) ++ (r.tags ++ []) := by
+    simp [varPart]
+  rw [this]; exact slice_seg _ _ _ _ _ (by simp [fixedPart_length, cigarWords_length, packNibbles_length, hq]; omega) rfl
+
+theorem varPart_length (r : Rec) (hq : r.qual.length = r.seq.length) :
+    (varPart r).length = (r.name.length + 1) + 4 * r.cigar.length + (r.seq.length + 1) / 2 + r.seq.length + r.tags.length := by
+  simp [varPart, cigarWords_length, packNibbles_length, hq]; omega
+
+/-- **the encoder loses nothing**: the complete spec-level decoder recovers EVERY field of an encoded record (bin, mate
+fields, template length and tag bytes included) and hands back exactly the bytes that follow it -/
+theorem decodeFull_encode (nref : Nat) (r : Rec) (h : specValid nref r = true) (post : Bytes) :
+    decodeFull (encodeRec r ++ post) = some (r, post) := by
+  have F := valid_facts nref r (specValid_valid nref r h)
+  simp only [specValid, Bool.and_eq_true, decide_eq_true_eq, List.all_eq_true] at h
+  obtain ⟨⟨⟨⟨⟨⟨⟨⟨⟨⟨⟨⟨_, _⟩, _⟩, hbin⟩, hnr⟩, hnp⟩, htl⟩, _⟩, _⟩, _⟩, _⟩, _⟩, _⟩ := h
+  have h16 : (256 : Nat) ^ 2 = 65536 := by decide
+  have h32 : (256 : Nat) ^ 4 = 4294967296 := by decide
+  have hvl := varPart_length r F.qual
+  have hlen : (encodeRec r ++ post).length = 36 + (varPart r).length + post.length := by
+    simp [encodeRec_length]
+  have hbs : slice (encodeRec r ++ post) 0 4 = toLE 4 (32 + (varPart r).length) := by
+    have : encodeRec r ++ post = fixedPart r ++ (varPart r ++ post) := by simp [encodeRec]
+    rw [this, fixed_block]
+  have hb : fromLE (toLE 4 (32 + (varPart r).length)) = 32 + (varPart r).length :=
+    fromLE_toLE 4 _ (by have := F.block; omega)
+  have htake : (encodeRec r ++ post).take (4 + (32 + (varPart r).length)) = fixedPart r ++ (varPart r ++ []) := by
+    have : 4 + (32 + (varPart r).length) = (encodeRec r).length := by rw [encodeRec_length]; omega
+    rw [this, List.take_left' rfl]; simp [encodeRec]
+  have hdrop : (encodeRec r ++ post).drop (4 + (32 + (varPart r).length)) = post := by
+    have : 4 + (32 + (varPart r).length) = (encodeRec r).length := by rw [encodeRec_length]; omega
+    rw [this, List.drop_left' rfl]
+  have c1 : fromLE (toLE 2 r.cigar.length) = r.cigar.length := fromLE_toLE 2 _ (by have := F.ncig; omega)
+  have c2 : fromLE (toLE 2 r.flag) = r.flag := fromLE_toLE 2 _ (by have := F.flag; omega)
+  have c3 : fromLE (toLE 4 r.seq.length) = r.seq.length := fromLE_toLE 4 _ (by have := F.lseq; omega)
+  have c4 : fromLE (toLE 2 r.bin) = r.bin := fromLE_toLE 2 _ (by omega)
+  have h36 : ¬ (encodeRec r ++ post).length < 36 := by rw [hlen]; omega
+  unfold decodeFull
+  rw [if_neg h36]
+  simp only [hbs, hb]
+  have hcond1 : (decide (32 + (varPart r).length < 32) || decide ((encodeRec r ++ post).length < 4 + (32 + (varPart r).length))) = false := by
+    rw [hlen]; simp; omega
+  simp only [hcond1, Bool.false_eq_true, if_false, htake, hdrop, fixed_lname, fixed_ncig, fixed_lseq, c1, c3]
+  have hcond2 : (decide (r.name.length + 1 = 0) || decide (4 + (32 + (varPart r).length) <
+      36 + (r.name.length + 1) + 4 * r.cigar.length + (r.seq.length + 1) / 2 + r.seq.length)) = false := by
+    simp; omega
+  simp only [hcond2, Bool.false_eq_true, if_false, fixed_ref, fixed_pos, fixed_mapq, fixed_bin, fixed_flag, fixed_nref, fixed_npos,
+    fixed_tlen, fromLE_toLE 4 _ (toU32_lt _), asI32_toU32 _ F.refI, asI32_toU32 _ F.posI, asI32_toU32 _ hnr, asI32_toU32 _ hnp,
+    asI32_toU32 _ htl, c2, c4]
+  have e1 : r.name.length + 1 - 1 = r.name.length := by omega
+  have e2 : 4 + (32 + (varPart r).length) - (36 + (r.name.length + 1) + 4 * r.cigar.length + (r.seq.length + 1) / 2 + r.seq.length)
+      = r.tags.length := by omega
+  rw [e1, e2, var_name, var_cigar, var_seq, var_qual r [] F.qual, var_tags r F.qual, words_cigarWords _ F.cig, unpack_pack _ F.seq]
+  have hcig : (r.cigar.map (fun p => p.2 * 16 + p.1)).map (fun w => (w % 16, w / 16)) = r.cigar := by
+    rw [List.map_map]
+    conv => rhs; rw [← List.map_id r.cigar]
+    apply List.map_congr_left
+    intro p hp
+    have := F.cig p hp
+    simp only [Function.comp, id]
+    ext <;> simp <;> omega
+  rw [hcig]
+
+/-- unique parsing: an encoded record followed by anything determines the record and what follows -/
+theorem encodeRec_prefix_free (nref : Nat) (r1 r2 : Rec) (h1 : specValid nref r1 = true) (h2 : specValid nref r2 = true)
+    (p1 p2 : Bytes) (h : encodeRec r1 ++ p1 = encodeRec r2 ++ p2) : r1 = r2 ∧ p1 = p2 := by
+  have a := decodeFull_encode nref r1 h1 p1
+  rw [h, decodeFull_encode nref r2 h2 p2] at a
+  simp only [Option.some.injEq, Prod.mk.injEq] at a
+  exact ⟨a.1.symm, a.2.symm⟩
+
+theorem encodeRec_injective (nref : Nat) (r1 r2 : Rec) (h1 : specValid nref r1 = true) (h2 : specValid nref r2 = true)
+    (h : encodeRec r1 = encodeRec r2) : r1 = r2 :=
+  (encodeRec_prefix_free nref r1 r2 h1 h2 [] [] (by rw [h])).1
+
+/-- a whole record area parses back, with the complete decoder, to exactly the list of records that was encoded:
+`encodeAll` is injective on lists of allowed records -/
+theorem decodeFullAll_encode (nref : Nat) (recs : List Rec) (h : ∀ r ∈ recs, specValid nref r = true) :
+    ∀ fuel, recs.length < fuel → decodeFullAll fuel (encodeAll recs) = some recs := by
+  induction recs with
+  | nil => intro fuel hf; obtain ⟨f, rfl⟩ : ∃ f, fuel = f + 1 := ⟨fuel - 1, by omega⟩; simp [decodeFullAll, encodeAll]
+  | cons r rs ih =>
+    intro fuel hf
+    obtain ⟨f, rfl⟩ : ∃ f, fuel = f + 1 := ⟨fuel - 1, by omega⟩
+    have hne : (encodeAll (r :: rs)).isEmpty = false := by
+      simp [encodeAll_cons, encodeRec, fixedPart, toLE]
+    simp only [decodeFullAll, hne, Bool.false_eq_true, if_false, encodeAll_cons, decodeFull_encode nref r (h r (by simp))]
+    rw [ih (fun q hq => h q (by simp [hq])) f (by simp at hf; omega)]
+    rfl
+
+theorem encodeAll_injective (nref : Nat) (a b : List Rec) (ha : ∀ r ∈ a, specValid nref r = true)
+    (hb : ∀ r ∈ b, specValid nref r = true) (h : encodeAll a = encodeAll b) : a = b := by
+  have h1 := decodeFullAll_encode nref a ha (a.length + b.length + 1) (by omega)
+  have h2 := decodeFullAll_encode nref b hb (a.length + b.length + 1) (by omega)
+  rw [h, h2] at h1
+  exact (Option.some.inj h1).symm
+
+/-! ### corollaries: chunk-size independence, idempotent write -/
+
+/-- any two admissible chunk sizes deliver the same records (chunk boundaries may differ, the record stream does not) -/
+theorem chunk_size_independent (names : List Bytes) (recs : List Rec) (hv : ∀ r ∈ recs, valid names.length r = true)
+    (k1 k2 : Nat) (h1 : ∀ r ∈ recs, (encodeRec r).length ≤ k1) (h2 : ∀ r ∈ recs, (encodeRec r).length ≤ k2) :
+    ((readAllChunks false false names k1 (encodeAll recs)).map (·.1)).flatten
+      = ((readAllChunks false false names k2 (encodeAll recs)).map (·.1)).flatten := by
+  rw [chunked names recs hv k1 h1, chunked names recs hv k2 h2]
+
+theorem range_filterMap_getElem? {α} (l : List α) : (List.range l.length).filterMap (l[·]?) = l := by
+  induction l with
+  | nil => rfl
+  | cons x xs ih =>
+    rw [List.length_cons, List.range_succ_eq_map, List.filterMap_cons]
+    have : ((fun i => (x :: xs)[i]?) ∘ Nat.succ) = (xs[·]?) := by funext i; simp
+    simp only [List.getElem?_cons_zero, List.filterMap_map, this, ih]
+
+/-- writing is idempotent: reading a written file and writing all of it again reproduces the same bytes -/
+theorem write_idempotent (text : Bytes) (refs : List (Bytes × Nat)) (hh : validHeader text refs = true)
+    (recs : List Rec) (hv : ∀ r ∈ recs, valid refs.length r = true) (members : List Bytes)
+    (hm : gunzip members = encodeHeader text refs ++ encodeAll recs)
+    (idx : List Nat) (hidx : ∀ i ∈ idx, i < recs.length) :
+    writeFile (writeFile members idx) (List.range idx.length) = writeFile members idx := by
+  have hw := (write_file text refs hh recs hv members hm idx hidx).1
+  have hsel : ∀ r ∈ idx.filterMap (recs[·]?), valid refs.length r = true := by
+    intro r hr
+    simp only [List.mem_filterMap] at hr
+    obtain ⟨i, _, hi⟩ := hr
+    exact hv r (List.mem_of_getElem? hi)
+  have hlen : (idx.filterMap (recs[·]?)).length = idx.length := by
+    clear hw hsel
+    induction idx with
+    | nil => rfl
+    | cons i is ih =>
+      have hi := hidx i (by simp)
+      simp only [List.filterMap_cons, List.getElem?_eq_getElem hi, List.length_cons]
+      rw [ih (fun j hj => hidx j (by simp [hj]))]
+  have h2 := (write_file text refs hh (idx.filterMap (recs[·]?)) hsel (writeFile members idx) (by rw [hw]; simp [gunzip])
+    (List.range idx.length) (by intro i hi; simp at hi; omega)).1
+  rw [h2, hw]
+  have : (List.range idx.length).filterMap ((idx.filterMap (recs[·]?))[·]?) = idx.filterMap (recs[·]?) := by
+    rw [← hlen]; exact range_filterMap_getElem? _
+  rw [this]
+
 /-! ### non-vacuity: the hypotheses are satisfiable by non-trivial values -/
 
 def exNames : List Bytes := [[99, 104, 114, 49], [99, 104, 114, 88]]
@@ -1020,6 +1551,13 @@ example : (recs : List Rec) → recs = [exR1, exR2, exR3] → ∀ i ∈ [2, 0, 0
 example : (intervalOf Gen.C16.consumes (view exNames exR3)).stop = 113 ∧ (intervalOf Gen.C16.consumes (view exNames exR3)).minus = true := by
   decide +kernel
 example : star ∉ exNames := by decide
+
+example : ∀ r ∈ [exR1, exR2, exR3], specValid exNames.length r = true := by decide
+example : decodeFull (encodeRec exR1 ++ [7, 7]) = some (exR1, [7, 7]) := by decide +kernel
+example : ∀ b ∈ encodeRec exR3, b < 256 := by decide +kernel
+example : countEntries false false exNames 65 (encodeAll [exR1, exR2, exR3]) = 3 := by decide +kernel
+example : validHeader [64, 72] [([99, 104, 114, 49], 1000), ([99, 104, 114, 88], 500)] = true := by decide
+example : Stops [1, 0, 0] ∧ ¬ Stops [0, 0, 0, 0, 9] := by unfold Stops; decide
 
 /-- the chunk-size bound of the property is needed: with a chunk size below the largest record the
 reader (as modelled, and as the code behaves) delivers nothing -/
